@@ -262,6 +262,9 @@ def run(ctx):
     handover_rule(ctx, esc, 'S3')
 
     # ---------------------------------------------------------------- S4
+    # deleting a CHILD_SA the kernel has already expired (crossing deletes / expires) is not an error
+    from .c10 import kernel_teardown
+    kernel_teardown(ctx, esc, 'S4')
     # the entry points are only ever invoked on IKE_SAs that are in the controller's table: once an IKE_SA was deleted and removed
     # (e.g. by crossing DELETEs) a late or duplicated message for its SPI finds nothing and is dropped
     from .c16 import lookup_by_spi
